@@ -46,6 +46,9 @@ def chain(ctx, d, b0, kw, case, canonical, keyname):
     try:
         b1 = d.build(v1, **kw)
     except Exception as e:
+        if isinstance(e, TypeError) and "not callable" in str(e) and shadowing_member(case.get("recipe")):
+            ctx.violation("member-name-shadows-dict-method", "parse accepted %s -> %r; build of that parsed container raised %s: %s (a member is named %s)" % (b0.hex(), v1, type(e).__name__, e, shadowing_member(case.get("recipe"))), case)
+            return None
         if isinstance(e, C.PaddingError) and bom_codec_in(case.get("recipe")):
             ctx.violation("bom-codec-rebuild-exceeds-fixed-size", "parse accepted %s -> %r (decoded without a byte-order mark); build re-encodes with a BOM and no longer fits: %s" % (b0.hex(), v1, e), case)
             return None
@@ -227,6 +230,22 @@ def run_gallery(ctx, rng):
                 ctx.nontrivial("gallery", name, label, "flip")
 
 
+DICT_METHODS = ("get", "items", "keys", "values", "update", "pop", "copy", "clear", "setdefault")
+
+
+def shadowing_member(r):
+    """the name of a member / label in the recipe that is also the name of a dict method (parsed containers expose members as
+    attributes, which then hide the method of the same name from the library's own calls)"""
+    if isinstance(r, list):
+        if len(r) == 2 and isinstance(r[0], str) and r[0] in DICT_METHODS and isinstance(r[1], (list, int)):
+            return r[0]
+        for x in r:
+            m = shadowing_member(x)
+            if m:
+                return m
+    return None
+
+
 def run(ctx):
     rng = ctx.rng
     n = ctx.pick(3000, 80000) // ctx.nworkers
@@ -281,6 +300,19 @@ def run(ctx):
                 pats = [p + bytes(w // 8 - 2) for p in SIGNS] + [bytes(w // 8 - 2) + p for p in SIGNS] + [bytes(rng.randrange(256) for _ in range(w // 8)) for _ in range(8)]
                 classics.append((["Bitwise", ["BitsInteger", w, sg, sw]], pats))
                 classics.append((["BitStruct", [["v", ["BitsInteger", w, sg, sw]], ["t", ["name", "Octet"]]]], [p + b"\x5a" for p in pats]))
+    # display adapters around byte strings: the parsed value is a bytes subclass and is built again
+    GBn = ["name", "GreedyBytes"]
+    for disp in ("Hex", "HexDump"):
+        classics.append(([disp, ["Bytes", 3]], [b"abc", b"\x00\xff\x80"]))
+        classics.append(([disp, GBn], [b"", b"a", b"hello world"]))
+        classics.append((["Struct", [["h", ["name", "Byte"]], ["p", [disp, ["Prefixed", ["name", "Byte"], GBn, False]]], ["t", [disp, ["name", "Int16ub"]]]]], [b"\x01\x02xy\x00\x07", b"\x01\x00\xff\xff"]))
+        classics.append((["Array", 2, [disp, ["Bytes", 2]]], [b"abcd"]))
+    # members and labels named like dict methods (a parsed container is built again)
+    for nm in ("get", "items", "keys", "update", "values", "pop"):
+        classics.append((["Struct", [[nm, ["name", "Byte"]], [None, ["Const", tag(b"x"), None]]]], [b"\x01x", b"\x00x"]))
+        classics.append((["Struct", [[nm, ["name", "Byte"]], ["s", ["Struct", [["a", ["name", "Byte"]]]]]]], [b"\x01\x02"]))
+        classics.append((["FlagsEnum", ["name", "Byte"], [[nm, 1], ["other", 2]]], [b"\x01", b"\x03", b"\x00"]))
+        classics.append((["BitStruct", [[nm, ["name", "Nibble"]], [None, ["Padding", 4]]]], [b"\x50"]))
     # adapters that present part of a list (the value parsed is shorter than what was read; build fills in the rest)
     A4, B1 = ["Array", 4, ["name", "Byte"]], [b"\x01\x02\x03\x04", b"\x00\x00\x00\x00", b"\xff\xfe\xfd\xfc", b"\x01\x02\x03"]
     for start, stop, step in ((0, 2, 1), (1, 3, 1), (0, 4, 2), (1, 4, 2), (0, None, 1), (None, None, 1), (2, None, 1), (0, 3, 3), (0, 1, 1), (3, 4, 1)):
